@@ -104,9 +104,8 @@ Proof.
     destruct (plain c _ a cmd D) as [a1 [[cmd1 D1]|]] eqn:H1; apply plain_tm in H1;
     apply weight_tm in H1; unfold sp_post;
     try (intro H; injection H as <- _; lia).
-  - destruct (post c (count a1) cmd1 D1) as [a2 [cd|]] eqn:H2; apply post_tm in H2;
-      apply weight_tm in H2; change (weight (count a1)) with (weight a1) in H2;
-      intro H; injection H as <- _; lia.
+  - unfold tick. intro H. injection H as <- _.
+    match goal with |- (weight ?x <= _)%nat => change (weight x) with (weight a1) end. lia.
   - rewrite sp_plain_correct.
     destruct (plain c n a1 cmd1 D1) as [a2 [[cmd2 D2]|]] eqn:H2; apply plain_tm in H2; apply weight_tm in H2.
     + intro H. apply IHk in H. lia.
@@ -117,8 +116,8 @@ Proof.
     + intro H. injection H as <- _. change (weight (print m (count a1))) with (weight a1) in H2. lia.
   - assert (Hw : weight (add_timing tid d k (count a1)) = (weight a1 + S (psize k))%nat).
     { rewrite !weight_wsum. cbn [add_timing tm set_tm elems count set_lg]. apply wsum_app. }
-    destruct (post c (add_timing tid d k (count a1)) cmd1 D1) as [a2 [cd|]] eqn:H2; apply post_tm in H2;
-      apply weight_tm in H2; intro H; injection H as <- _; lia.
+    unfold tick. intro H. injection H as <- _.
+    match goal with |- (weight ?x <= _)%nat => change (weight x) with (weight (add_timing tid d k (count a1))) end. lia.
   - destruct (tick c (log_warn c (count a1))) as [a2 cmd2] eqn:H2.
     assert (Hw : weight a2 = weight a1).
     { apply weight_tm. unfold tick in H2. injection H2 as <- _. cbn [tm]. rewrite tm_log_warn. reflexivity. }
@@ -186,12 +185,10 @@ Proof.
     cbn [sp_instrs]; unfold sp_plain; rewrite Hprot;
     destruct (plain_on c _ a cmd D) as [a1 [[cmd1 D1]|]] eqn:H1; try discriminate;
     apply plain_on_D in H1; subst D1; unfold sp_post.
-  - destruct (post c (count a1) cmd1 D) as [a2 [cd|]]; discriminate.
   - destruct (plain_on c n a1 cmd1 D) as [a2 [[cmd2 D2]|]] eqn:H2; [|discriminate].
     apply plain_on_D in H2. subst D2. now apply IHk.
   - destruct (post c (print m (count a1)) cmd1 D) as [a2 [[cmd2 D2]|]] eqn:H2; [|discriminate].
     apply post_prot_D in H2. subst D2. now apply IHk.
-  - destruct (post c (add_timing tid d k (count a1)) cmd1 D) as [a2 [cd|]]; discriminate.
   - destruct (tick c (log_warn c (count a1))) as [a2 cmd2]. now apply IHk.
   - destruct (fresh_tid (count a1)) as [child a2].
     destruct (nest c <? lvl + 1); [discriminate|].
